@@ -144,6 +144,25 @@ func (p *MetadataPersister) MoveHeader(ctx context.Context, oldName string, newN
 	newName = p.getSanitizedPath(ctx, newName)
 	oldName = p.getSanitizedPath(ctx, oldName)
 
+	// Replace whatever the index still holds under the new name (i.e. a deleted header or the result of an earlier replay)
+	if newName != oldName {
+		if _, err := queries.Raw(
+			fmt.Sprintf(
+				`delete from %v where %v = ? and %v in (select %v from %v where %v = ?);`,
+				models.TableNames.Headers,
+				models.HeaderColumns.Name,
+				models.HeaderColumns.Linkname,
+				models.HeaderColumns.Linkname,
+				models.TableNames.Headers,
+				models.HeaderColumns.Name,
+			),
+			newName,
+			oldName,
+		).ExecContext(ctx, p.sqlite.DB); err != nil {
+			return err
+		}
+	}
+
 	// We can't do this with `dbhdr.Update` because we are renaming the primary key
 	n, err := queries.Raw(
 		fmt.Sprintf(
